@@ -59,6 +59,9 @@ struct Subst {
     /// simply not applied (the code then either is in the dialect as it stands or the run is undecided)
     #[serde(default)]
     required: bool,
+    /// `old` is a regular expression (capture groups usable as $1.. in `new`)
+    #[serde(default)]
+    re: bool,
 }
 
 #[derive(Deserialize, Default, Clone)]
@@ -1285,6 +1288,23 @@ fn main() {
                 Found::Other(o) => br(o.span()),
             };
             let body = &text[s..e];
+            if sb.re {
+                let rx = Regex::new(&sb.old).unwrap_or_else(|er| fail(&job.report, Report::default(), format!("bad subst regex {}: {}", sb.old, er)));
+                let n = rx.find_iter(body).count();
+                if n != 1 {
+                    if !sb.required {
+                        rep.rules.push(RuleApp { rule: format!("SUBST-NOT-APPLIED {}", sb.why), item: it.path.clone(), line: 0, old: sb.old.clone(), new: String::new() });
+                        continue;
+                    }
+                    fail(&job.report, rep, format!("lost anchor: regex subst in `{}` matches {} times: {:?}", it.path, n, sb.old));
+                }
+                let m = rx.find(body).unwrap();
+                let (ms, me) = (m.start() + s, m.end() + s);
+                let replaced = rx.replace(&text[ms..me], sb.new.as_str()).to_string();
+                rep.rules.push(RuleApp { rule: format!("SUBST {}", sb.why), item: it.path.clone(), line: line_of(&text, ms), old: text[ms..me].to_string(), new: replaced.clone() });
+                text.replace_range(ms..me, &replaced);
+                continue;
+            }
             let n = body.matches(sb.old.as_str()).count();
             if n != 1 {
                 if !sb.required && n == 0 {
